@@ -656,3 +656,43 @@ func TestVerif_C19_ArgumentlessSequences(t *testing.T) {
 		}
 	}
 }
+
+// every method called several times in a row with the same request (a retry by the application, a duplicated
+// notification): state left behind by the first call must not make the next one crash
+func TestVerif_C19_RepeatedCalls(t *testing.T) {
+	acct := vacct.Get("C19")
+	names := c19MethodNames()
+	vacct.RapidCheck(t, vacct.N(2, 80), func(rt *rapid.T) {
+		w := c19NewWorld(t)
+		defer w.cleanup()
+		// something to refer to: a group and a contact request of the session
+		for _, k := range []string{"create-group", "contact-send", "share-contact"} {
+			n, r := w.action(rt, k)
+			if res := w.call(n, r); !res.errored {
+				w.learn(n, r, res.reply)
+			}
+		}
+		for _, name := range names {
+			if c19External[name] {
+				continue
+			}
+			if _, isStream := c19Streams[name]; isStream && rapid.IntRange(0, 2).Draw(rt, "skip-stream") != 0 {
+				continue // streams cost their time-out each
+			}
+			req := w.newRequest(name)
+			w.pools.fill(rt, req.ProtoReflect(), 0)
+			for rep := 1; rep <= 3; rep++ {
+				res := w.call(name, proto.Clone(req))
+				if res.panicked {
+					acct.Violation(fmt.Sprintf("panic/%s/%s", name, res.site), "TestVerif_C19_RepeatedCalls", map[string]any{"method": name, "request": fmt.Sprint(req), "repetition": rep, "panic": res.panicMsg, "site": res.site})
+					rt.Fatalf("C19: %s panicked on repetition %d of the same request at %s: %s\nrequest: %v", name, rep, res.site, res.panicMsg, req)
+				}
+			}
+			acct.Case(true, "rep|"+name+"|"+fmt.Sprint(req), func() any { return map[string]any{"kind": "repeated-call", "method": name} }, "repeated-calls")
+		}
+		if live := w.call("ServiceGetConfiguration", &protocoltypes.ServiceGetConfiguration_Request{}); live.panicked || live.hung {
+			acct.Violation("service-dead-after-sequence", "TestVerif_C19_RepeatedCalls", map[string]any{})
+			rt.Fatalf("C19: the service does not answer after the repeated calls")
+		}
+	})
+}
